@@ -20,5 +20,7 @@ mod tests;
 // TODO: make opening_hours.rs lighter and less spaghetty
 pub use crate::context::{Context, ContextHolidays};
 pub use crate::opening_hours::{OpeningHours, DATE_END};
+#[cfg(ohrs_verif)]
+pub use crate::opening_hours::verif_schedule_count;
 pub use crate::utils::range::DateTimeRange;
 pub use opening_hours_syntax::rules::RuleKind;
